@@ -862,6 +862,13 @@ pub fn check_main(scn: &dyn Scenario, tier: Tier, seed: u64) -> i32 {
     let dir = format!("{}/evidence", verif_root());
     let _ = std::fs::create_dir_all(&dir);
     let _ = std::fs::write(format!("{}/{}.json", dir, id), serde_json::to_string_pretty(&ev).unwrap());
+    if tier == Tier::Thorough {
+        // keep the last thorough result next to the per-check evidence file (which the next
+        // quick run overwrites)
+        let tdir = format!("{}/thorough", dir);
+        let _ = std::fs::create_dir_all(&tdir);
+        let _ = std::fs::write(format!("{}/{}.json", tdir, id), serde_json::to_string_pretty(&ev).unwrap());
+    }
     println!(
         "opcua-sim: property={} runs={} distinct_nontrivial={} violations={} known={} wall={:.1}s exit={}",
         id,
